@@ -146,7 +146,8 @@ func (l Tuple) M__mul__(other Object) (Object, error) {
 			// nothing to repeat (and int(b) * m may not overflow)
 			return Tuple{}, nil
 		}
-		const maxInt = int(^uint(0) >> 1)
+		// make() panics rather than returning an error for lengths it can never allocate
+		const maxInt = 1 << 40
 		if int(b) > maxInt/m {
 			return nil, ExceptionNewf(MemoryError, "repeated tuple is too long")
 		}
